@@ -118,8 +118,43 @@ class EventModel:
             if any(self._is_coroutine(b) for b, _ in e.chain):
                 continue
             cell = [c for c in e.cells if c[0] in self.shared_owners][-1]
+            if e.kind == "atomic_rmw" and cell in self.raii_counters():
+                continue        # a counter bumped by a constructor and un-bumped by the same type's Drop: cancellation undoes it
             out.setdefault(e.bb, []).append(Event("E", "%s %s.%s" % (e.kind, short_ty(cell[0]), cell[1]), self.prog.loc(*e.leaf())))
         return out
+
+    def raii_counters(self):
+        """atomic cells that some `Drop::drop` of the crate read-modify-writes: live-object counters (listeners, in-flight)"""
+        if getattr(self, "_raii", None) is None:
+            cells = set()
+            for b in self.prog.facts.lib_bodies():
+                if b.impl_trait in ("std::ops::Drop", "core::ops::Drop") and b.id.endswith("::drop"):
+                    for e in self.prog.effects(b.id):
+                        if e.kind == "atomic_rmw" and e.cells:
+                            cells.add(e.cells[-1])
+                            # the guard holds a reference to the counter (`struct Signal<'a>(.., &'a AtomicUsize)`): the counter is
+                            # whatever its constructor is handed for that field
+                            ty, fld = e.cells[-1]
+                            f = self.prog.facts.adt_field(ty, fld)
+                            if f is None or not f["ty"].startswith("&"):
+                                continue
+                            for (cb, cbb, _i, rv) in self.prog.constructions(ty):
+                                ci = self.prog.info(cb)
+                                names = rv.j.get("fields") or []
+                                if fld not in names:
+                                    continue
+                                o = ci.trace(rv.ops[names.index(fld)])
+                                if o.kind == "param" and not o.path:
+                                    for xb in self.prog.facts.lib_bodies():
+                                        xi = self.prog.info(xb.id)
+                                        for bb, t in xi.calls(lambda c, cb=cb, xb=xb: self.prog.qual(xb, c.target) == cb):
+                                            if len(t.args) >= o.data:
+                                                ro = self.prog.receiver_origin(xi, t.args[o.data - 1])
+                                                cells |= set(ro.cells()) if hasattr(ro, "cells") else set()
+                                else:
+                                    cells |= set(o.cells()) if hasattr(o, "cells") else set()
+            self._raii = cells
+        return self._raii
 
     def _is_coroutine(self, body_id):
         b = self.prog.facts.body(body_id)
